@@ -39,8 +39,9 @@ class CFG(object):
                 blk.term = f.node(b["t"])
             if "tc" in b:
                 blk.tcond = f.node(b["tc"])
-            blk.succs = list(b["s"])
             blk.noret = bool(b.get("noret"))
+            # control does not continue after a noreturn call (abort, __assert_fail, exit)
+            blk.succs = [] if blk.noret else list(b["s"])
             if "lbl" in b:
                 blk.label = f.node(b["lbl"])
             self.blocks[blk.id] = blk
